@@ -8,7 +8,13 @@
     model carries the defect; the full statements are therefore refuted
     ([…_refuted]) and proved on the complement of the finding ([…_except_known]:
     histories without an accepted AdminDown packet).  Repairing it breaks
-    router TestDataPlaneRun/bfd_bootstrap_*, so it is recorded, not fixed. *)
+    router TestDataPlaneRun/bfd_bootstrap_*, so it is recorded, not fixed.
+
+    KNOWN FINDING C16/your-discriminator-unchecked (open): neither shouldDiscard nor
+    Session.Run compares a non-zero Your Discriminator with the session's local
+    discriminator; RFC 5880 6.8.6 demands that such a packet be discarded ("no
+    session is found").  [C16_session_lookup_refuted]; everything else of the
+    RFC's validation rules is met exactly ([C16_filter_is_rfc_validation]). *)
 From Coq Require Import List NArith Bool.
 From Scion Require Import Lib.Check Model.BFD Proofs.BFD.
 Import ListNotations.
@@ -86,16 +92,78 @@ Print Assumptions C16_two_sessions_reach_up_and_stay.
 
 (** The oracle evaluated on the implementation's observed histories holds on
     the model outside the known-finding class. *)
-Theorem C16_oracle_holds_on_model_except_known : forall rd ops,
-  no_rx_admindown ops = true ->
-  hist_ok (st_code Down) ops (map obs_of (trace (init rd) ops)) = true.
-Proof. intros rd ops K. apply (hist_ok_model ops (init rd)); [apply init_not_admindown|exact K]. Qed.
+Theorem C16_oracle_holds_on_model_except_known : forall ld rd ops,
+  no_rx_admindown ops = true -> no_rx_wrong_your ld ops = true ->
+  hist_ok ld (st_code Down) ops (map obs_of (trace (init rd) ops)) = true.
+Proof. intros ld rd ops K W. apply (hist_ok_model ld ops (init rd)); [apply init_not_admindown|exact K|exact W]. Qed.
 Print Assumptions C16_oracle_holds_on_model_except_known.
+
+(** The reception filter is the RFC's validation rules (6.8.6, authentication not in use) plus the
+    rejection of the features scion does not implement -- and nothing else ... *)
+Theorem C16_filter_is_rfc_validation : forall p,
+  should_discard p = rfc_invalid p || unsupported p.
+Proof. exact should_discard_rfc. Qed.
+Print Assumptions C16_filter_is_rfc_validation.
+
+(** ... so, against the RFC's own rules: every packet the RFC discards for a format reason leaves
+    the session untouched, and every packet the RFC accepts for session [ld] that uses no
+    unimplemented feature and does not carry AdminDown updates the state as 6.8.6 prescribes. *)
+Theorem C16_rfc_reception_full_except_known : forall ld s p,
+  local s <> AdminDown ->
+  (rfc_invalid p = true -> step s (Recv p) = s) /\
+  (rfc_discard ld p = false -> unsupported p = false -> p_state p <> AdminDown ->
+   local (step s (Recv p)) = rfc_recv (local s) (p_state p)).
+Proof.
+  intros ld s p H. split.
+  - intros V. apply step_recv_discard. rewrite should_discard_rfc, V. reflexivity.
+  - intros R U A. apply step_recv_rfc; try assumption.
+    rewrite should_discard_rfc, U. unfold rfc_discard in R.
+    apply orb_false_iff in R as [R _]. now rewrite R.
+Qed.
+Print Assumptions C16_rfc_reception_full_except_known.
+
+(** Second finding (C16/your-discriminator-unchecked): the session lookup of 6.8.6 is missing. A
+    packet whose non-zero Your Discriminator is not the session's discriminator ("no session is
+    found, the packet MUST be discarded") is accepted and changes the state. *)
+Definition C16_session_lookup_statement : Prop := forall ld s p,
+  rfc_discard ld p = true -> step s (Recv p) = s.
+
+Theorem C16_session_lookup_refuted : ~ C16_session_lookup_statement.
+Proof.
+  intros H. specialize (H 77 (init 0) (mk Down 5 9) eq_refl). discriminate.
+Qed.
+Print Assumptions C16_session_lookup_refuted.
+
+(** The detection time armed by an accepted packet is the one of RFC 5880 6.8.4. *)
+Theorem C16_detection_time_rfc : forall r p,
+  detect_time r p = rfc_detect_time (p_mult p) r (p_des_tx p).
+Proof. exact detect_time_rfc. Qed.
+Print Assumptions C16_detection_time_rfc.
+
+(** "... and stay Up", at full strength: once the link has delivered again (as above), both
+    sessions remain Up after EVERY further schedule of sends, deliveries and losses -- any
+    interleaving, any number of packets in flight -- in which no detection timer fires. *)
+Theorem C16_two_sessions_stay_up_under_any_schedule : forall da0 db0 hist n os,
+  da0 <> 0 -> db0 <> 0 -> (3 <= n)%nat -> forallb no_timer os = true ->
+  let p := prun (pinit da0 db0) hist in
+  let q := prun p (flush p ++ rounds n) in
+  local (sa (prun q os)) = Up /\ local (sb (prun q os)) = Up.
+Proof.
+  intros da0 db0 hist n os Ha Hb Hn NT p q.
+  destruct (prun_stable os q (recovered_stable da0 db0 hist n Ha Hb Hn) NT) as (_ & U1 & U2 & _).
+  now split.
+Qed.
+Print Assumptions C16_two_sessions_stay_up_under_any_schedule.
 
 (** Non-vacuity: a concrete lossy history satisfying the hypotheses. *)
 Example C16_example :
   let p := prun (pinit 7 9) [SendA; DropAB; SendB; DelivBA; TimeoutA; SendA; SendA; TimeoutB] in
   let q := prun p (flush p ++ rounds 3) in
   (local (sa p), local (sb p)) = (Down, Down) /\ (local (sa q), local (sb q)) = (Up, Up) /\
-  no_rx_admindown [Recv (mk Down 3 0); Timeout; Recv (mk Up 3 1)] = true.
+  no_rx_admindown [Recv (mk Down 3 0); Timeout; Recv (mk Up 3 1)] = true /\
+  no_rx_wrong_your 1 [Recv (mk Down 3 0); Timeout; Recv (mk Up 3 1)] = true /\
+  (let r := prun q [SendA; SendA; SendB; DropAB; DelivBA; SendB; DelivAB; DelivBA] in
+   (local (sa r), local (sb r), length (ab r), length (ba r)) = (Up, Up, 0%nat, 0%nat)) /\
+  rfc_discard 77 (mk Init 5 77) = false /\ unsupported (mk Init 5 77) = false /\
+  detect_time 20000 (mk Down 5 0) = 60000.
 Proof. vm_compute. repeat split; reflexivity. Qed.
